@@ -213,3 +213,240 @@ theorem conforms_indexed (ext : Ext) (b : Builder) (v : Scalar) (h : conforms ex
     simp_all [toJson, arrowIndexed, cellEq] <;> exact isFinite_not_nan _ h
 
 end Snel.Response
+
+namespace Snel.Response
+
+/-! ## The query writer refines "first occurrence per id, then OFFSET, then LIMIT" -/
+
+/-- Rows surviving deduplication: the first row of every event id (rows without a readable
+id are all kept). `seen` = ids already met. -/
+def dedupFirst (idCol : Option Nat) : List Nat → List Row → List Row
+  | _, [] => []
+  | seen, r :: rs =>
+    match rowId idCol r with
+    | some i => if i ∈ seen then dedupFirst idCol seen rs else r :: dedupFirst idCol (i :: seen) rs
+    | none => r :: dedupFirst idCol seen rs
+
+def takeOpt (l : Option Nat) (used : Nat) (rows : List Row) : List Row :=
+  match l with
+  | some n => rows.take (n - used)
+  | none => rows
+
+/-- The specification of the response's rows. -/
+def specRows (cfg : Settings) (idCol : Option Nat) (rows : List Row) : List Row :=
+  takeOpt cfg.limit 0 ((dedupFirst idCol [] rows).drop (cfg.offset.getD 0))
+
+theorem rowStep_stop_mono (cfg : Settings) (d : Dedup) (st : WState) (id : Option Nat)
+    (h : st.stop = true) : (rowStep cfg d st id).2.stop = true := by
+  unfold rowStep
+  cases d <;> cases id <;> simp <;> (repeat' split) <;> simp_all
+
+def limitFull (cfg : Settings) (emitted : Nat) : Bool :=
+  match cfg.limit with
+  | some l => decide (l ≤ emitted)
+  | none => false
+
+/-- State after the deduplication stage let the row pass. -/
+def afterDedup (st : WState) (id : Option Nat) : WState :=
+  match id with
+  | some i => { st with seen := i :: st.seen }
+  | none => st
+
+theorem rowStep_full_dup (cfg : Settings) (st : WState) (i : Nat) (h : i ∈ st.seen) :
+    rowStep cfg .full st (some i) = (false, st) := by
+  simp [rowStep, h]
+
+theorem rowStep_full_fresh (cfg : Settings) (st : WState) (id : Option Nat)
+    (hfresh : ∀ i, id = some i → i ∉ st.seen) :
+    rowStep cfg .full st id =
+      if (afterDedup st id).skipped < cfg.offset.getD 0 then
+        (false, { afterDedup st id with skipped := (afterDedup st id).skipped + 1 })
+      else if limitFull cfg (afterDedup st id).emitted then
+        (false, { afterDedup st id with stop := true })
+      else (true, { afterDedup st id with emitted := (afterDedup st id).emitted + 1 }) := by
+  cases id with
+  | none =>
+    cases ho : cfg.offset <;> cases hl : cfg.limit <;>
+      simp [rowStep, afterDedup, limitFull, ho, hl] <;> (repeat' split) <;> simp_all <;>
+      (have h' := of_decide_eq_true ‹decide (_ ≤ _) = true›; omega)
+  | some i =>
+    have := hfresh i rfl
+    cases ho : cfg.offset <;> cases hl : cfg.limit <;>
+      simp [rowStep, afterDedup, limitFull, ho, hl, this] <;> (repeat' split) <;> simp_all <;>
+      (have h' := of_decide_eq_true ‹decide (_ ≤ _) = true›; omega)
+
+theorem takeOpt_full (cfg : Settings) (e : Nat) (rows : List Row) (h : limitFull cfg e = true) :
+    takeOpt cfg.limit e rows = [] := by
+  unfold limitFull at h
+  cases hl : cfg.limit with
+  | none => simp [hl] at h
+  | some l =>
+    simp [hl] at h
+    have : l - e = 0 := by omega
+    simp [takeOpt, this]
+
+theorem takeOpt_cons (cfg : Settings) (e : Nat) (r : Row) (rows : List Row)
+    (h : limitFull cfg e = false) :
+    takeOpt cfg.limit e (r :: rows) = r :: takeOpt cfg.limit (e + 1) rows := by
+  unfold limitFull at h
+  cases hl : cfg.limit with
+  | none => simp [takeOpt]
+  | some l =>
+    simp [hl] at h
+    have : l - e = (l - (e + 1)) + 1 := by omega
+    simp [takeOpt, this, List.take_succ_cons]
+
+/-- The row loop on a flat list, from any state that has not reached the limit. -/
+theorem scan_full_spec (cfg : Settings) (idCol : Option Nat) (rows : List Row) :
+    ∀ st : WState, st.stop = false →
+      (scan cfg .full idCol st rows).1
+        = takeOpt cfg.limit st.emitted
+            ((dedupFirst idCol st.seen rows).drop (cfg.offset.getD 0 - st.skipped)) := by
+  induction rows with
+  | nil => intro st _; cases h : cfg.limit <;> simp [scan, dedupFirst, takeOpt]
+  | cons r rs ih =>
+    intro st hst
+    by_cases hdup : ∃ i, rowId idCol r = some i ∧ i ∈ st.seen
+    · obtain ⟨i, hi, hmem⟩ := hdup
+      simp only [scan, dedupFirst, hi, rowStep_full_dup cfg st i hmem, hst, hmem, if_true]
+      simpa using ih st hst
+    · have hfresh : ∀ i, rowId idCol r = some i → i ∉ st.seen := by
+        intro i hi hmem; exact hdup ⟨i, hi, hmem⟩
+      have hded : dedupFirst idCol st.seen (r :: rs)
+          = r :: dedupFirst idCol (afterDedup st (rowId idCol r)).seen rs := by
+        cases hi : rowId idCol r with
+        | none => simp [dedupFirst, hi, afterDedup]
+        | some i => simp [dedupFirst, hi, afterDedup, hfresh i hi]
+      have hsk : (afterDedup st (rowId idCol r)).skipped = st.skipped := by
+        cases rowId idCol r <;> rfl
+      have hem : (afterDedup st (rowId idCol r)).emitted = st.emitted := by
+        cases rowId idCol r <;> rfl
+      have hstop : (afterDedup st (rowId idCol r)).stop = false := by
+        cases rowId idCol r <;> exact hst
+      simp only [scan, rowStep_full_fresh cfg st _ hfresh, hded, hsk, hem]
+      by_cases hskip : st.skipped < cfg.offset.getD 0
+      · have e : cfg.offset.getD 0 - st.skipped = (cfg.offset.getD 0 - (st.skipped + 1)) + 1 := by omega
+        have := ih { afterDedup st (rowId idCol r) with skipped := st.skipped + 1 } (by simpa using hstop)
+        simp only [hskip, if_true, hstop, e, List.drop_succ_cons]
+        simpa [hem, hstop] using this
+      · have e0 : cfg.offset.getD 0 - st.skipped = 0 := by omega
+        simp only [hskip, if_false, e0, List.drop_zero]
+        cases hfull : limitFull cfg st.emitted with
+        | true => simp [takeOpt_full cfg _ _ hfull]
+        | false =>
+          have := ih { afterDedup st (rowId idCol r) with emitted := st.emitted + 1 } (by simpa using hstop)
+          rw [takeOpt_cons cfg _ _ _ hfull]
+          simp only [Bool.false_eq_true, if_false, hstop, if_true]
+          simpa [hsk, e0, hstop] using this
+
+end Snel.Response
+
+namespace Snel.Response
+
+theorem scan_append (cfg : Settings) (d : Dedup) (idCol : Option Nat) (xs ys : List Row) :
+    ∀ st : WState, st.stop = false →
+      scan cfg d idCol st (xs ++ ys) =
+        if (scan cfg d idCol st xs).2.stop then scan cfg d idCol st xs
+        else ((scan cfg d idCol st xs).1 ++ (scan cfg d idCol (scan cfg d idCol st xs).2 ys).1,
+              (scan cfg d idCol (scan cfg d idCol st xs).2 ys).2) := by
+  induction xs with
+  | nil => intro st h; simp [scan, h]
+  | cons x xs ih =>
+    intro st _
+    simp only [List.cons_append, scan]
+    by_cases hs : (rowStep cfg d st (rowId idCol x)).2.stop = true
+    · simp [hs]
+    · have hs' : (rowStep cfg d st (rowId idCol x)).2.stop = false := by simpa using hs
+      simp only [hs', Bool.false_eq_true, if_false]
+      rw [ih _ hs']
+      by_cases h2 : (scan cfg d idCol (rowStep cfg d st (rowId idCol x)).2 xs).2.stop = true
+      · simp [h2]
+      · simp only [h2]
+        split <;> simp
+
+theorem select_stop (cfg : Settings) (w : Writer) (idCol : Option Nat) (bs : List Batch)
+    (st : WState) (bc : Nat) (h : st.stop = true) : (select cfg w idCol st bc bs).1 = [] := by
+  cases bs <;> simp [select, h]
+
+theorem select_cons_rows (cfg : Settings) (w : Writer) (idCol : Option Nat) (st : WState) (bc : Nat)
+    (b : Batch) (bs : List Batch) (hst : st.stop = false) (hb : b.isEmpty = false) :
+    rowsOf (select cfg w idCol st bc (b :: bs)).1
+      = (scan cfg (dedupFor w bc) idCol st b).1
+          ++ rowsOf (select cfg w idCol (scan cfg (dedupFor w bc) idCol st b).2 (bc + 1) bs).1 := by
+  simp only [select, hst, hb, Bool.false_eq_true, if_false]
+  split
+  · rename_i he
+    have : (scan cfg (dedupFor w bc) idCol st b).1 = [] := by simpa using he
+    simp [this]
+  · simp [rowsOf]
+
+/-- The query writer's rows do not depend on how the rows are cut into batches: they are the
+row loop applied to the concatenation. -/
+theorem select_query_flat (cfg : Settings) (idCol : Option Nat) (bs : List Batch) :
+    ∀ st bc, st.stop = false →
+      rowsOf (select cfg .query idCol st bc bs).1 = (scan cfg .full idCol st bs.flatten).1 := by
+  induction bs with
+  | nil => intro st bc _; simp [select, rowsOf, scan]
+  | cons b bs ih =>
+    intro st bc hst
+    by_cases hb : b.isEmpty = true
+    · have : b = [] := by simpa using hb
+      subst this
+      simpa [select, hst] using ih st bc hst
+    · have hb' : b.isEmpty = false := by simpa using hb
+      rw [select_cons_rows cfg .query idCol st bc b bs hst hb', List.flatten_cons,
+        scan_append cfg .full idCol b bs.flatten st hst]
+      show (scan cfg .full idCol st b).1
+          ++ rowsOf (select cfg .query idCol (scan cfg .full idCol st b).2 (bc + 1) bs).1 = _
+      by_cases hs : (scan cfg .full idCol st b).2.stop = true
+      · simp [hs, select_stop _ _ _ _ _ _ hs, rowsOf]
+      · have hs' : (scan cfg .full idCol st b).2.stop = false := by simpa using hs
+        simp [hs', ih _ (bc + 1) hs']
+
+/-- The limit is never exceeded. -/
+theorem rowStep_le_limit (cfg : Settings) (d : Dedup) (st : WState) (id : Option Nat) (l : Nat)
+    (hl : cfg.limit = some l) (h : st.emitted ≤ l) : (rowStep cfg d st id).2.emitted ≤ l := by
+  unfold rowStep
+  cases d <;> cases id <;> simp [hl] <;> (repeat' split) <;> simp_all <;> omega
+
+theorem scan_le_limit (cfg : Settings) (d : Dedup) (idCol : Option Nat) (l : Nat)
+    (hl : cfg.limit = some l) (rows : List Row) :
+    ∀ st, st.emitted ≤ l → (scan cfg d idCol st rows).2.emitted ≤ l := by
+  induction rows with
+  | nil => intro st h; simpa [scan] using h
+  | cons r rs ih =>
+    intro st h
+    have := rowStep_le_limit cfg d st (rowId idCol r) l hl h
+    simp only [scan]
+    split
+    · exact this
+    · exact ih _ this
+
+theorem select_le_limit (cfg : Settings) (w : Writer) (idCol : Option Nat) (l : Nat)
+    (hl : cfg.limit = some l) (bs : List Batch) :
+    ∀ st bc, st.emitted ≤ l → (select cfg w idCol st bc bs).2.emitted ≤ l := by
+  induction bs with
+  | nil => intro st bc h; simpa [select] using h
+  | cons b bs ih =>
+    intro st bc h
+    simp only [select]
+    split
+    · exact h
+    · split
+      · exact ih st bc h
+      · have := scan_le_limit cfg (dedupFor w bc) idCol l hl b st h
+        split
+        · exact ih _ _ this
+        · exact ih _ _ this
+
+end Snel.Response
+
+namespace Snel.Response
+open Snel.Gen.C20
+
+/-- The JSON renderer's error body has `"status"` at byte 12, inside the probed prefix. -/
+theorem hasStatus_json_head (rest : Bytes) :
+    hasStatusWord (List.take httpProbeLen (jsonErrHead ++ rest)) = true := by
+  simp [jsonErrHead, httpProbeLen, hasStatusWord, sStatus, List.isPrefixOf]
+
+end Snel.Response
